@@ -60,6 +60,10 @@ CHECKS = {
    text="Seven families of synthetic TrueType variable fonts assembled by independent encoders (fvar, avar, gvar with shared/embedded peaks, intermediate regions, shared/private packed point numbers, every packed-delta run form, HVAR direct / DeltaSetIndexMap formats 0 and 1, MVAR with all value tags, ItemVariationStore): all 3-point and half (thorough all) of the 4-point coordinate sequences over {0,10,50,100} plus designed shapes with coincident neighbours x every referenced-point subset x phantom selections x delta patterns (IUP); all sets of 1-3 regions from a 10-region one-axis menu and 1-2 (3) regions from 35 two-axis regions x encoding profiles x axis kinds x avar; a 300-point glyph x packed-delta modes x run caps x point-number forms; 8 HVAR kinds x 4 MVAR kinds x phantom deltas x numberOfHMetrics; invalid regions; advances near the int16 edge. Each font is instanced at every region start/peak/end +-1 F2Dot14 unit, midpoints, thirds, 0, +-1 and beyond the axis range (thorough: all 32769 normalised values for 198 one-axis fonts); glyph points, composite offsets, advances, side bearings and MVAR metrics read back by an independent reader are compared with an exact rational evaluator (region scalars, sum of scalar x delta, IUP per contour, phantom points) to one font unit, exactly at the default, and the output must contain no variation tables and load as a static font.",
    note="Trusted: otmodel::varenc encoders (checked against the specification's packed point/delta examples) and rational evaluator; when HVAR disagrees with phantom-point deltas either source is accepted; a font with advances above 32767 may be refused; CFF2 blend is C18's business; composites with transforms, vertical metrics and bounding boxes are not checked.",
    technique="exhaustive enumeration of variable-font models x encodings x coordinates against an exact rational evaluation of the OpenType variation algorithm"),
+ "C11": dict(engine="mcx-choice-tree", cat="model_checking",
+   text="An independent WOFF2 encoder (W3C recommendation; stored-block brotli stream) produces: all 65 536 values of 255UInt16 under every valid encoding; every terminated UIntBase128 byte string of 1-3 (thorough 4) bytes plus menu strings up to 6 bytes with the mandated rejections; for each of the 128 triplet rows the deltas at the minimum and maximum magnitude of its range (thorough: +1, mid, -1 as well) with every admissible row, in first and second point position, on and off curve; four glyph sets (empty glyphs, 1-3 contours, loose bbox, instructions, composites with all 4 argument x 4 scale forms, all 30 on/off patterns of 1-4 points, stream sizes at the 255UInt16 boundaries) x numberOfHMetrics {1, n/2, n} x lsb patterns x permitted hmtx flags, with up to 2 (thorough 4) deviations among glyf/loca version 0 vs 3, loca format, bbox mode, triplet row choice, 255UInt16 mode, explicit tags, table order, extra tables, overlap bitmap, metadata/private blocks, flavour; collections of 1-3 fonts with shared/unshared tables; boundary glyph counts up to 65 535 and glyf sizes around 128 KB. Every file is decoded through Woff2Font/FontData and compared with the model: untransformed tables byte-identical, reconstructed glyf/loca/hmtx read by an independent parser describe identical contours, points, flags, instructions, bounding boxes, components and metrics.",
+   note="Trusted: otmodel::woff2enc encoder and glyf parser; brotli-decompressor behind stored meta-blocks only; triplet rows varied one point at a time; hmtx transform next to an untransformed glyf may be reconstructed or cleanly refused; the OVERLAP_SIMPLE bit is not demanded.",
+   technique="exhaustive choice-tree enumeration of encoder choices (deviation bounded) x glyph models against the model font"),
 }
 
 NOT_YET = {
